@@ -102,7 +102,22 @@ def shape(repo: str) -> dict:
     for needle in ('data = data[offset:]', 'left = data[length:]', 'attribute = data[:length]'):
         if needle not in src:
             raise Untranslatable(f'AttributeCollection.parse no longer contains `{needle}`')
-    return {'recursive': recursive, 'min': offsets[0], 'ext': offsets[1], 'self_calls': len(calls)}
+    # an attribute length that overruns the block: either nothing tests it (the slice is silently short), or an
+    # `if len(data) < length:` that records TreatAsWithdraw and ends the walk (`return self`)
+    overrun = [n for n in ast.walk(fn) if isinstance(n, ast.If) and ast.unparse(n.test) in ('len(data) < length', 'length > len(data)')]
+    if len(overrun) > 1:
+        raise Untranslatable('more than one overrun test in AttributeCollection.parse')
+    overrun_stops = False
+    if overrun:
+        body = overrun[0].body
+        ok = (len(body) == 2 and ast.unparse(body[0]).startswith('self.add(TreatAsWithdraw(') and ast.unparse(body[1]) in ('return self', 'break')
+              and not overrun[0].orelse)
+        if not ok:
+            raise Untranslatable('the overrun test of AttributeCollection.parse does something else than TreatAsWithdraw + stop')
+        if src.index('data = data[offset:]') > src.index(ast.unparse(overrun[0].test)) or src.index('left = data[length:]') < src.index(ast.unparse(overrun[0].test)):
+            raise Untranslatable('the overrun test is not between `data = data[offset:]` and `left = data[length:]`')
+        overrun_stops = True
+    return {'recursive': recursive, 'min': offsets[0], 'ext': offsets[1], 'self_calls': len(calls), 'overrun_stops': overrun_stops}
 
 
 def _int(v, what):
@@ -190,7 +205,9 @@ def generate(repo: str) -> str:
          'From Coq Require Import ZArith Bool List.', 'Import ListNotations.', 'Open Scope Z_scope.',
          f'(* AttributeCollection.parse: {"calls itself on `left` once per attribute (" + str(sh["self_calls"]) + " tail calls), no loop" if sh["recursive"] else "one `while data:` loop, no call to itself"} *)',
          f'Definition PARSE_IS_RECURSIVE : bool := {"true" if sh["recursive"] else "false"}.',
-         f'Definition ATTR_HDR : Z := {sh["min"]}.', f'Definition ATTR_HDR_EXT : Z := {sh["ext"]}.']
+         f'Definition ATTR_HDR : Z := {sh["min"]}.', f'Definition ATTR_HDR_EXT : Z := {sh["ext"]}.',
+         '(* an attribute length overrunning the block: true = `if len(data) < length:` TreatAsWithdraw and stop; false = not tested *)',
+         f'Definition OVERRUN_STOPS : bool := {"true" if sh["overrun_stops"] else "false"}.']
     for k in ('F_EXT', 'F_PARTIAL', 'F_TRANSITIVE', 'F_OPTIONAL', 'MASK_PARTIAL'):
         L.append(f'Definition {k} : Z := {rf[k]}.')
     L.append('(* one row per registered attribute code: registration flag (FLAG | EXTENDED_LENGTH), optional, '
